@@ -408,6 +408,94 @@ fn error_text(ret: &str) -> Option<String> {
     Some(e.to_string())
 }
 
+/// Iterator protocol beyond next(): nth, skip, step_by, last, count on FRESH iterators of the same result.
+/// Items are reported by index (decoder) / position (encoder; -2 if the bytes are not those of that position).
+pub fn iter_protocol_dec(result: &reed_solomon_simd::DecoderResult<'_>, full: &[(usize, Vec<u8>)]) -> String {
+    let n = full.len();
+    let idx = |o: Option<(usize, &[u8])>| -> i64 {
+        match o {
+            None => -1,
+            Some((i, b)) => {
+                if full.iter().any(|x| x.0 == i && x.1 == b) {
+                    i as i64
+                } else {
+                    -2
+                }
+            }
+        }
+    };
+    let probes: Vec<usize> = [0usize, 1, 2, n.saturating_sub(1), n, n + 1].into_iter().collect();
+    let nth: Vec<String> = probes.iter().map(|k| format!("[{},{}]", k, idx(result.restored_original_iter().nth(*k)))).collect();
+    let skip1 = result.restored_original_iter().skip(1).count();
+    let step2: Vec<String> = result.restored_original_iter().step_by(2).take(8).map(|x| idx(Some(x)).to_string()).collect();
+    let last = idx(result.restored_original_iter().last());
+    let cnt = result.restored_original_iter().count();
+    let mut it = result.restored_original_iter();
+    let _ = it.nth(0);
+    let after: i64 = idx(it.next());
+    format!(
+        "{{\"nth\":{},\"skip1\":{},\"step2\":{},\"last\":{},\"cnt\":{},\"second\":{}}}",
+        util::arr_json(&nth),
+        skip1,
+        util::arr_json(&step2),
+        last,
+        cnt,
+        after
+    )
+}
+
+pub fn iter_protocol_enc(result: &reed_solomon_simd::EncoderResult<'_>, full: &[Vec<u8>]) -> String {
+    let n = full.len();
+    let at = |k: usize, o: Option<&[u8]>| -> i64 {
+        match o {
+            None => -1,
+            Some(b) => {
+                if full.get(k).map_or(false, |x| x == b) {
+                    k as i64
+                } else {
+                    -2
+                }
+            }
+        }
+    };
+    let probes: Vec<usize> = [0usize, 1, 2, n.saturating_sub(1), n, n + 1].into_iter().collect();
+    let nth: Vec<String> = probes.iter().map(|k| format!("[{},{}]", k, at(*k, result.recovery_iter().nth(*k)))).collect();
+    let skip1 = result.recovery_iter().skip(1).count();
+    let step2: Vec<String> = result.recovery_iter().step_by(2).take(8).enumerate().map(|(t, b)| at(2 * t, Some(b)).to_string()).collect();
+    let last = at(n.saturating_sub(1), result.recovery_iter().last());
+    let cnt = result.recovery_iter().count();
+    let mut it = result.recovery_iter();
+    let _ = it.nth(0);
+    let after = at(1, it.next());
+    format!(
+        "{{\"nth\":{},\"skip1\":{},\"step2\":{},\"last\":{},\"cnt\":{},\"second\":{}}}",
+        util::arr_json(&nth),
+        skip1,
+        util::arr_json(&step2),
+        last,
+        cnt,
+        after
+    )
+}
+
+/// What the protocol summary must be for a result exposing exactly the (ascending) indexes `ys`.
+pub fn expected_protocol(ys: &[usize]) -> String {
+    let n = ys.len();
+    let get = |k: usize| -> i64 { ys.get(k).map_or(-1, |x| *x as i64) };
+    let probes: Vec<usize> = [0usize, 1, 2, n.saturating_sub(1), n, n + 1].into_iter().collect();
+    let nth: Vec<String> = probes.iter().map(|k| format!("[{},{}]", k, get(*k))).collect();
+    let step2: Vec<String> = ys.iter().step_by(2).take(8).map(|x| x.to_string()).collect();
+    format!(
+        "{{\"nth\":{},\"skip1\":{},\"step2\":{},\"last\":{},\"cnt\":{},\"second\":{}}}",
+        util::arr_json(&nth),
+        n.saturating_sub(1),
+        util::arr_json(&step2),
+        if n == 0 { -1 } else { ys[n - 1] as i64 },
+        n,
+        get(1)
+    )
+}
+
 fn digest_items(items: &[(usize, Vec<u8>)]) -> String {
     let v: Vec<String> = items
         .iter()
@@ -653,8 +741,13 @@ pub fn run_enc<E: MkEngine>(x: &mut Exec, init: &Value, script: &[StepRef]) -> R
                                     let indexed: Vec<(usize, Vec<u8>)> = items.iter().cloned().enumerate().collect();
                                     let ret = Obj::new().us("count", items.len()).us("again", again).done();
                                     let refs: Vec<(usize, Vec<u8>)> = reference.iter().cloned().enumerate().collect();
-                                    let extra = format!("\"out\":{},\"ref\":{}", digest_items(&indexed), digest_items(&refs));
+                                    let proto = guarded!(iter_protocol_enc(result, &items)).unwrap_or_else(|p| format!("{{\"panic\":{}}}", p));
+                                    let extra = format!("\"out\":{},\"ref\":{},\"proto\":{}", digest_items(&indexed), digest_items(&refs), proto);
                                     trace_event(x, "enc", st, &ret, &snap, Some(extra), &[], Some(true));
+                                    let ys: Vec<usize> = (0..items.len()).collect();
+                                    if proto != expected_protocol(&ys) {
+                                        return Err(mm(format!("recovery_iter adaptors (nth/skip/step_by/last/count) disagree with plain iteration: {proto} instead of {}", expected_protocol(&ys))));
+                                    }
                                     let _ = allocs;
                                     let want: BTreeSet<usize> = set_of(&st["yields"]);
                                     if items.len() != want.len() {
@@ -899,8 +992,13 @@ pub fn run_dec<E: MkEngine>(x: &mut Exec, init: &Value, script: &[StepRef]) -> R
                                     let (items, again) = got.map_err(|p| mm(format!("restored_original_iter panicked: {p}")))?;
                                     let ret = Obj::new().us("count", items.len()).us("again", again).done();
                                     let refs: Vec<(usize, Vec<u8>)> = (0..k).filter(|j| !got_o.contains(j)).map(|j| (j, orig[j].clone())).collect();
-                                    let extra = format!("\"out\":{},\"ref\":{}", digest_items(&items), digest_items(&refs));
+                                    let proto = guarded!(iter_protocol_dec(result, &items)).unwrap_or_else(|p| format!("{{\"panic\":{}}}", p));
+                                    let extra = format!("\"out\":{},\"ref\":{},\"proto\":{}", digest_items(&items), digest_items(&refs), proto);
                                     trace_event(x, "dec", st, &ret, &snap, Some(extra), &[], Some(true));
+                                    let ys: Vec<usize> = set_of(&st["yields"]).into_iter().collect();
+                                    if proto != expected_protocol(&ys) {
+                                        return Err(mm(format!("restored_original_iter adaptors (nth/skip/step_by/last/count) disagree with the specification's view: {proto} instead of {}", expected_protocol(&ys))));
+                                    }
                                     let want: Vec<usize> = set_of(&st["yields"]).into_iter().collect();
                                     let have: Vec<usize> = items.iter().map(|(i, _)| *i).collect();
                                     if have != want {
@@ -1438,10 +1536,11 @@ pub fn free_enc<E: MkEngine>(x: &mut Exec, rng: &mut impl Rng, len: usize, big: 
                         Ok((items, again)) => {
                             let indexed: Vec<(usize, Vec<u8>)> = items.iter().cloned().enumerate().collect();
                             let refs: Vec<(usize, Vec<u8>)> = reference.iter().cloned().enumerate().collect();
+                            let proto = guarded!(iter_protocol_enc(result, &items)).unwrap_or_else(|p| format!("{{\"panic\":{}}}", p));
                             events.push((
                                 step_json("iter", &[], &[]),
                                 Obj::new().us("count", items.len()).us("again", again).done(),
-                                Some(format!("\"out\":{},\"ref\":{}", digest_items(&indexed), digest_items(&refs))),
+                                Some(format!("\"out\":{},\"ref\":{},\"proto\":{}", digest_items(&indexed), digest_items(&refs), proto)),
                                 Vec::new(),
                             ));
                         }
@@ -1539,6 +1638,10 @@ pub fn free_dec<E: MkEngine>(x: &mut Exec, rng: &mut impl Rng, len: usize, big: 
     let mut round_no = 0u64;
     let mut given_o: BTreeSet<usize> = BTreeSet::new();
     let mut given_r: BTreeSet<usize> = BTreeSet::new();
+    // pattern memory: after a reset / drop the previous round's arrival list is often replayed (same indexes,
+    // new data), so that anything cached per pattern or per shape across rounds is exercised
+    let mut this_round: Vec<(bool, usize)> = Vec::new();
+    let mut replay_queue: Vec<(bool, usize)> = Vec::new();
     for _ in 0..len {
         x.steps += 1;
         let (snap0, _) = dec_snap_json(&obj, false);
@@ -1564,11 +1667,13 @@ pub fn free_dec<E: MkEngine>(x: &mut Exec, rng: &mut impl Rng, len: usize, big: 
         let roll = rng.gen_range(0..100);
         if roll < t_add && round.is_some() {
             let (orig, rec) = round.as_ref().unwrap();
-            let is_rec = rng.gen_bool(0.5);
+            let queued = replay_queue.pop();
+            let is_rec = queued.map_or_else(|| rng.gen_bool(0.5), |q| q.0);
             let cnt = if is_rec { r } else { k };
             let given = if is_rec { &given_r } else { &given_o };
             let fresh: Vec<usize> = (0..cnt).filter(|i| !given.contains(i)).collect();
             let idx = match rng.gen_range(0..20) {
+                _ if queued.is_some() => queued.unwrap().1,
                 0 => cnt,
                 1 => *[65535usize, 65536, usize::MAX, usize::MAX - 1, cnt + 1].choose(rng).unwrap(),
                 2 if !given.is_empty() => *given.iter().next().unwrap(),
@@ -1595,6 +1700,7 @@ pub fn free_dec<E: MkEngine>(x: &mut Exec, rng: &mut impl Rng, len: usize, big: 
                 } else {
                     given_o.insert(idx);
                 }
+                this_round.push((is_rec, idx));
             }
             let (snap, after) = dec_snap_json(&obj, false);
             let ptr_same = match (before, after) {
@@ -1661,10 +1767,11 @@ pub fn free_dec<E: MkEngine>(x: &mut Exec, rng: &mut impl Rng, len: usize, big: 
                     match got {
                         Ok((items, again)) => {
                             let refs: Vec<(usize, Vec<u8>)> = (0..k).filter(|j| !go.contains(j)).map(|j| (j, orig.get(j).cloned().unwrap_or_default())).collect();
+                            let proto = guarded!(iter_protocol_dec(result, &items)).unwrap_or_else(|p| format!("{{\"panic\":{}}}", p));
                             events.push((
                                 step_json("iter", &[], &[]),
                                 Obj::new().us("count", items.len()).us("again", again).done(),
-                                Some(format!("\"out\":{},\"ref\":{}", digest_items(&items), digest_items(&refs))),
+                                Some(format!("\"out\":{},\"ref\":{},\"proto\":{}", digest_items(&items), digest_items(&refs), proto)),
                                 Vec::new(),
                             ));
                         }
@@ -1692,10 +1799,34 @@ pub fn free_dec<E: MkEngine>(x: &mut Exec, rng: &mut impl Rng, len: usize, big: 
                     round = None;
                     given_o.clear();
                     given_r.clear();
+                    replay_queue = if rng.gen_bool(0.5) { this_round.iter().rev().copied().collect() } else { Vec::new() };
+                    this_round.clear();
                 }
             }
         } else if roll < t_reset || obj.kind() == Kind::Rs {
             let (mut nk, mut nr, mut nsb) = pick_cfg(rng, obj.kind(), big);
+            // often a NEIGHBOUR of the current shape (same chunk size, one more/less shard, other shard size)
+            if rng.gen_bool(0.4) && k < 400 && r < 400 {
+                let (ck, cr) = match rng.gen_range(0..5) {
+                    0 => (k + 1, r),
+                    1 => (k.saturating_sub(1).max(1), r),
+                    2 => (k, r + 1),
+                    3 => (k, r.saturating_sub(1).max(1)),
+                    _ => (k, r),
+                };
+                let ok = match obj.kind() {
+                    Kind::High => crate::dut::supports_rate("high", ck, cr),
+                    Kind::Low => crate::dut::supports_rate("low", ck, cr),
+                    _ => true,
+                };
+                if ok {
+                    nk = ck;
+                    nr = cr;
+                    if rng.gen_bool(0.5) {
+                        nsb = sb;
+                    }
+                }
+            }
             if rng.gen_bool(0.25) {
                 (nk, nr, nsb) = bad_cfg(rng, nk, nr, nsb);
             }
@@ -1710,6 +1841,10 @@ pub fn free_dec<E: MkEngine>(x: &mut Exec, rng: &mut impl Rng, len: usize, big: 
                 round = None;
                 given_o.clear();
                 given_r.clear();
+                if !this_round.is_empty() && rng.gen_bool(0.6) {
+                    replay_queue = this_round.iter().rev().copied().collect();
+                }
+                this_round.clear();
             }
             let (snap, after) = dec_snap_json(&obj, false);
             let ptr_same = match (before, after) {
